@@ -738,4 +738,25 @@ theorem graph_level_ops_meaning : Statement_graph_level_ops_meaning := by
       · exact Or.inr (Or.inl ⟨t, ht, rfl⟩)
       · exact Or.inr (Or.inr h1)
 
+/-! ### The defect fixed in round g (C18-F3), kept as a regression witness.
+    Before the fix the wildcard branch looped over `context.triples(pattern)`.  When the context is a
+    `ConjunctiveGraph` (`cg.remove((None, None, None, cg))`) that lists the matching triples of EVERY
+    graph; each was logged under the context's own name `g`, although the store call only removes from
+    graph `g`.  Rollback then re-added, into `g`, triples that were never there. -/
+
+/-- pre-fix enumeration for a ConjunctiveGraph context: triples of every graph, each paired with `g` -/
+def graphTriplesUnion (cur : List Quad) (p : Pat) (g : Nat) : List Quad :=
+  (memTriples cur p.anyGraph).map (fun tc => mkQuad tc.1 g)
+
+def XW.removeUnionBuggy (s : XW) (p : Pat) (g : Nat) : XW :=
+  ⟨s.m.remove p, logRemovals s.log (graphTriplesUnion s.m.cur p g)⟩
+
+theorem conjunctive_context_broke_rollback :
+    ¬ SetEq ((XW.removeUnionBuggy ⟨{ cur := [(1, 2, 3, 8)] }, []⟩ (none, none, none, some 9) 9).rollback).m.cur
+        [(1, 2, 3, 8)] := by
+  intro h
+  have := (h (1, 2, 3, 9)).1 (by decide)
+  revert this
+  decide
+
 end RV.C18
